@@ -577,7 +577,7 @@ func (h *hdHist) playHandSteps(maxSteps int) bool {
 			if h.withholdAt == gs.Status.CurrentEvent && !h.withheld {
 				h.withheld = true
 				silent = asked[h.r.Intn(len(asked))]
-				if gs.Status.CurrentEvent == "BlindsRequested" && h.r.Intn(2) == 0 {
+				if gs.Status.CurrentEvent == "BlindsRequested" && (len(gs.Players) >= 3 || h.r.Intn(2) == 0) {
 					silent = asked[len(asked)-1] // the highest game index asked (the big blind in a ring hand)
 				}
 			}
